@@ -692,10 +692,12 @@ def flow(run, mod):
         mod.correspond(run, corr)
     except HarnessError as e:
         corr.harness_errors.append(str(e)[-1500:])
-    except InternalError:
-        if pres.ok:
+    except InternalError as e:
+        if pres.ok and not broken:
             raise
-        corr.harness_errors.append("driver unavailable (Lean build failed)")
+        # a translator already failed on this tree (or the Lean build did): what the correspondence needs from it is missing
+        corr.harness_errors.append("driver unavailable (Lean build failed)" if not pres.ok else
+                                   "correspondence could not run after the translator failure: %s" % str(e)[-600:])
     except (subprocess.TimeoutExpired, KeyboardInterrupt):
         raise
     except Exception as e:
